@@ -39,6 +39,7 @@ func c10(c *Ctx) {
 	sConfigClone(c, "R7/S-CFGCLONE")
 	sConfigCodec(c, "R8/S-CFGCODEC")
 	sState(c, "R7/S-STATE")
+	c10R9(c, "R9")
 }
 
 func c10R1(c *Ctx, rule string) {
@@ -530,3 +531,116 @@ func clampedBy(c *Ctx, r *engine.Result, v ssa.Value, x, hi, tooBig string) (boo
 }
 
 var _ = types.Universe
+
+
+// c10R9: RecoverCluster (the operator's recovery path) rebuilds the FSM from
+// the newest usable snapshot plus every later log entry, writes a snapshot at
+// the position of the newest of the two carrying the given configuration, and
+// removes the log only after that snapshot is durable.
+func c10R9(c *Ctx, rule string) {
+	fn := c.Fn(rule, "RecoverCluster")
+	if fn == nil {
+		return
+	}
+	var create ssa.Instruction
+	for _, s := range c.P.CallsIn(fn, engine.Is("iface:SnapshotStore.Create")) {
+		create = s.Instr
+	}
+	if create == nil {
+		c.Bad(rule, "RecoverCluster:create", c.P.Pos(fn.Pos()), "a SnapshotStore.Create call", "none")
+		return
+	}
+	sink := c.CallDesc(create)
+	idx, term := c.P.Arg(create, 1), c.P.Arg(create, 2)
+	const snapIdx, entryIdx = "val(range p5.List()#0).Index", "var(Log).Index"
+	okPos := strings.Contains(idx, snapIdx) && strings.Contains(idx, entryIdx) && strings.ReplaceAll(idx, ".Index", ".Term") == term
+	c.Check(rule, "RecoverCluster:snapshot-position", c.P.InstrPos(create), "the recovery snapshot is taken at (index, term) of the last replayed log entry, or of the restored snapshot when no later entry exists – never below what the server had already recorded", okPos, "Create(_, "+idx+", "+term+", …)", 1)
+	okCfg := c.P.Arg(create, 3) == "p7" && c.P.Arg(create, 4) == "1" && c.P.Arg(create, 5) == "p6"
+	c.Check(rule, "RecoverCluster:snapshot-configuration", c.P.InstrPos(create), "the snapshot carries the configuration passed by the operator (configuration index 1)", okCfg, "Create(…, "+c.P.Arg(create, 3)+", "+c.P.Arg(create, 4)+", "+c.P.Arg(create, 5)+")", 1)
+	r := c.Run(&engine.Automaton{Fn: fn, Tracks: []engine.Track{
+		engine.PredBool("hasState", DescIs("HasExistingState(p3, p4, p5)#0")),
+		predErr("stateErr", "HasExistingState(p3, p4, p5)#1"),
+		predErr("lastErr", "p3.LastIndex()#1"),
+		engine.Event("created", func(in ssa.Instruction) bool { return in == create }),
+		predErr("createErr", sink+"#1"),
+		engine.Event("persisted", func(in ssa.Instruction) bool {
+			cc := engine.CallCommonOf(in)
+			return cc != nil && c.P.CalleeName(cc) == "iface:FSMSnapshot.Persist" && c.P.Arg(in, 0) == sink+"#0"
+		}),
+		engine.PredCond("persistErr", func(cd engine.Cond) (bool, int) {
+			if cd.IsRel && strings.Contains(cd.X, ".Persist(") && cd.Y == "nil" {
+				if isNEc(cd) {
+					return true, engine.True
+				}
+				return true, engine.False
+			}
+			return false, 0
+		}),
+		engine.Event("closed", func(in ssa.Instruction) bool {
+			cc := engine.CallCommonOf(in)
+			return cc != nil && c.P.CalleeName(cc) == "iface:io.Closer.Close" && c.P.D(engine.RecvValue(in)) == sink+"#0"
+		}),
+		predErr("closeErr", sink+"#0.Close()"),
+		engine.Event("compacted", c.P.IsCallTo(engine.Is("iface:LogStore.DeleteRange"))),
+		predErr("compactErr", "p3.DeleteRange("),
+	}})
+	c.RequireAt(r, rule, "RecoverCluster:needs-existing-state", create, "recovery proceeds only when HasExistingState reported state without error, and the last log index was read without error", func(v engine.View) bool {
+		return v.T("hasState") && v.F("stateErr") && v.F("lastErr")
+	})
+	n := 0
+	for _, s := range c.P.CallsIn(fn, engine.Is("iface:LogStore.DeleteRange")) {
+		n++
+		okArgs := c.P.Arg(s.Instr, 0) == "p3.FirstIndex()#0" && c.P.Arg(s.Instr, 1) == "p3.LastIndex()#0"
+		c.RequireAt(r, rule, "RecoverCluster:log-removed-only-after-durable-snapshot", s.Instr, "the whole log (first..last) is deleted only after the recovery snapshot was created, persisted and closed without error", func(v engine.View) bool {
+			return okArgs && v.Seen("created") && v.F("createErr") && v.Seen("persisted") && v.F("persistErr") && v.Seen("closed") && v.F("closeErr")
+		})
+	}
+	if n != 1 {
+		c.Bad(rule, "RecoverCluster:compaction", c.P.Pos(fn.Pos()), "one DeleteRange call", fmt.Sprintf("%d", n))
+	}
+	nNil := 0
+	for _, ret := range engine.ReturnsOf(fn) {
+		if c.P.D(engine.ReturnValues(ret)[0]) != "nil" {
+			continue
+		}
+		nNil++
+		c.RequireAt(r, rule, "RecoverCluster:success", ret, "nil only after snapshot durable and log compaction succeeded", func(v engine.View) bool {
+			return v.Seen("closed") && v.F("closeErr") && v.Seen("compacted") && v.F("compactErr")
+		})
+	}
+	if nNil == 0 {
+		c.Bad(rule, "RecoverCluster:success", c.P.Pos(fn.Pos()), "a nil return", "none")
+	}
+	// replay: every entry after the restored snapshot up to the last index, commands applied
+	okLoop := false
+	var loopD string
+	engine.EachInstr(fn, func(in ssa.Instruction) {
+		if ifi, ok := in.(*ssa.If); ok {
+			cd := c.P.CondOf(ifi.Cond)
+			cd, _ = cd.WithY(func(d string) bool { return d == "p3.LastIndex()#0" })
+			if cd.IsRel && cd.Y == "p3.LastIndex()#0" && strings.HasPrefix(cd.X, "phi(") {
+				loopD = cd.String()
+				okLoop = cd.EdgeOrd(true) == engine.LT|engine.EQ && strings.Contains(cd.X, "("+"phi(0 | "+snapIdx+") + 1)") && strings.Contains(cd.X, "(↺ + 1)")
+			}
+		}
+	})
+	c.Check(rule, "RecoverCluster:replays-every-later-entry", c.P.Pos(fn.Pos()), "the replay loop runs from restored snapshot index + 1 in steps of one while index <= LastIndex()", okLoop, "loop test "+loopD, 1)
+	for _, s := range c.P.CallsIn(fn, engine.Is("iface:LogStore.GetLog")) {
+		ok := strings.HasPrefix(c.P.Arg(s.Instr, 0), "phi(") && c.P.Arg(s.Instr, 1) == "var(Log)"
+		c.Check(rule, "RecoverCluster:reads-loop-index", c.P.InstrPos(s.Instr), "each iteration reads the entry at the loop index", ok, "GetLog("+c.P.Arg(s.Instr, 0)+", "+c.P.Arg(s.Instr, 1)+")", 1)
+	}
+	ra := c.Run(&engine.Automaton{Fn: fn, Tracks: []engine.Track{
+		engine.PredRel("isCmd", "var(Log).Type", "LogCommand", engine.EQ),
+		predErr("getErr", "p3.GetLog("),
+	}})
+	na := 0
+	for _, s := range c.P.CallsIn(fn, engine.Is("iface:FSM.Apply")) {
+		na++
+		c.RequireAt(ra, rule, "RecoverCluster:applies-commands", s.Instr, "the entry just read (without error) is applied when it is a command", func(v engine.View) bool {
+			return v.T("isCmd") && v.F("getErr") && c.P.Arg(s.Instr, 0) == "var(Log)"
+		})
+	}
+	if na != 1 {
+		c.Bad(rule, "RecoverCluster:applies-commands", c.P.Pos(fn.Pos()), "one FSM.Apply call in the replay loop", fmt.Sprintf("%d", na))
+	}
+}
